@@ -31,7 +31,7 @@ func init() {
 		Rules: []RuleDef{
 			{Name: "C06-CELL", Floor: 8, Doc: "no unguarded in-place write of a cell taken from an array's slot list", Run: c06Run},
 			{Name: "C06-NEST", Floor: 1, Doc: "a store through a nested index path ($b[0][1] = v) detaches the inner array from other copies before writing into it", Run: nop},
-			{Name: "C06-SINK", Floor: 7, Doc: "every container store copies an array value first; clone copies properties through such a store", Run: nop},
+			{Name: "C06-SINK", Floor: 3, Doc: "every container store copies an array value first; clone copies properties through such a store", Run: nop},
 		},
 	})
 }
